@@ -3,7 +3,8 @@
 (* KeyspaceGroup.  One event per round:                                       *)
 (*   {round, tasks, runtime, acked: ids whose mutation returned Ok,           *)
 (*    final: ids in the set behind a later lookup (Serialize),                *)
-(*    installs: number of group-map insertions the hook saw for that name}    *)
+(*    installs: number of group-map insertions the hook saw for that name,    *)
+(*    foreign: documents of another keyspace's tasks found in this set}       *)
 (* C18: every acknowledged mutation is in the final set; one installation.    *)
 EXTENDS Naturals, Sequences, FiniteSets, TLC, Json, IOUtils
 
@@ -11,8 +12,11 @@ Rec == ndJsonDeserialize(IOEnv.TRACE)
 VARIABLES l, bad
 
 SetOf(a) == { a[i] : i \in 1..Len(a) }
+\* (in every round a sibling keyspace whose name is related to the first one's as a string - a trailing or leading blank,
+\* another case, a suffix - is first used at the same time by other tasks: `foreign` counts their documents in this set)
 Ok(e) == /\ SetOf(e.acked) \subseteq SetOf(e.final)
          /\ e.installs <= 1
+         /\ e.foreign = 0
 
 Init == l = 1 /\ bad = <<>>
 Next == /\ l <= Len(Rec) /\ l' = l + 1
